@@ -59,7 +59,7 @@ RULE = ('cases: abstract note extents drawn from the seeded PRNG (0..8 notes; na
         'SHF_COMPRESSED), sh_addr, sh_link, sh_info, sh_addralign, sh_entsize, p_flags, p_vaddr, p_paddr, p_memsz, '
         'p_align; the image is presented to the library as a drawn stream kind (tools/lib/streams.py: BytesIO, buffered file '
         'fresh / warm / at EOF / 16-byte buffer, mmap, gzip stream, stream with an unrelated fileno; every kind on every entry '
-        'point incl. a 150-400 entry NT_FILE whose name table crosses the 8192-byte read-ahead buffer); owner FDO / type '
+        'point incl. a 150-400 entry NT_FILE whose name table crosses the 8192-byte read-ahead buffer); name fields with counted bytes after the first NUL (Go: Go NUL NUL, n_namesz 4); owner FDO / type '
         '0xcafe1a7e notes with JSON, Latin-1, invalid UTF-8 and empty payloads; one file with 2-3 adjacent note sections (also empty ones) under one spanning PT_NOTE, the views walked on the '
         'same ELFFile in drawn orders with repetitions (section first / segment first / shuffled) and in lock step, each '
         'compared with its own extent; note tables and a stab table longer than 64 KiB (one big descriptor crossing the '
@@ -271,7 +271,12 @@ def _gen_note(rng, cfgd, name=None, dlen=None, force_type=None):
         ty = rng.choice([0, 1, 2, 3, 4, 5, 6, 7, 3, 5, 1, NT_FILE, 0x53494749, rng.getrandbits(32), 2 ** 32 - 1, NT_FDO])
         if name == b'FDO' and rng.random() < 0.7:
             ty = NT_FDO
-    namesz = 0 if name == 'none' else len(name) + 1
+    # bytes after the terminating NUL that n_namesz still counts (Go writes b"Go\0\0" with n_namesz 4): anything,
+    # NULs included; the owner is the string up to the first NUL
+    extra = b''
+    if name != 'none' and rng.random() < 0.15:
+        extra = rng.choice([b'\0', b'\0\0', b'\0\0\0', b'x', b'x\0', _bytes(rng, rng.choice([1, 2, 3, 4, 5, 8]))])
+    namesz = 0 if name == 'none' else len(name) + 1 + len(extra)
     kind = 'raw'
     if core:
         if ty == 3:
@@ -299,7 +304,8 @@ def _gen_note(rng, cfgd, name=None, dlen=None, force_type=None):
     # the abstract object is self-contained: the generator computes the size of its own descriptor to
     # choose the padding bytes
     dsz = _desc_len(desc, is64, (not is64) and emname in HALF_MACHINES)
-    return [name, _garbage(rng, _pad(4, namesz)), ty, desc, _garbage(rng, _pad(4, dsz))]
+    note = [name, _garbage(rng, _pad(4, namesz)), ty, desc, _garbage(rng, _pad(4, dsz))]
+    return note + [extra] if extra else note
 
 
 def _desc_len(desc, is64, half):
@@ -443,6 +449,16 @@ def gen(ctx):
         cases.append(('stabs', [c, [[i, 0x24 + i, i, 0x100 + i, 0x8048000 + i] for i in range(7)], lay([['seek', 0], ['data', '.note'], ['other']])]))
         secs = [[_gen_note(rng, cfgd(c)) for _ in range(2)] for _ in range(2)]
         cases.append(('multi', [c, secs, lay([]), [0, 'seg', 1, 'seg']]))
+    # --- name fields with bytes after the first NUL inside n_namesz: the Go toolchain's b"Go\0\0" (n_namesz 4), GNU
+    #     with counted padding (still GNU: the descriptor is decoded), counted garbage with further NULs
+    for le, is64 in _cfgs():
+        c = [le, is64, 'ET_EXEC', 'EM_X86_64' if is64 else 'EM_386']
+        go = [b'Go', b'', 4, ['raw', b'go-build-id/xyz'], b'\x31', b'\0']
+        gnu = [b'GNU', b'', 3, ['build', b'\xde\xad\xbe\xef\x01'], b'\x41\x42\x43', b'\0\0\0\0']
+        odd = [b'A', b'\x51', 0x77, ['raw', b'12'], b'\x52\x53', b'zz\0y\0']
+        empty = [b'', b'\x61', 0x78, ['raw', b''], b'', b'\0\0']
+        cases.append(('notes', [c, [go, gnu, odd, empty, _gen_note(rng, cfgd(c))], layout_pick(is64)]))
+        cases.append(('notes', [c, [go], [0, False]]))
     # --- vendor notes that look like text: owner FDO / type 0xcafe1a7e (.note.package) and that type under other owners;
     #     the descriptor is arbitrary bytes (JSON with NUL padding, Latin-1, invalid UTF-8, empty) and is yielded as such
     for j, payload in enumerate([b'{"type":"rpm","name":"pkg","version":"1.2-3"}\0\0\0', b'{"maintainer":"Ren\xe9"}\0', b'\xff\xfe\x00\x80',
@@ -755,7 +771,7 @@ def _bucket(v):
 def _nontrivial(notes):
     if len(notes) >= 2:
         return True
-    for name, npad, ty, desc, dpad in notes:
+    for name, npad, ty, desc, dpad in (n[:5] for n in notes):
         if name == 'none' or desc[0] != 'raw' or npad or dpad or len(desc[1]) == 0:
             return True
     return False
@@ -763,7 +779,7 @@ def _nontrivial(notes):
 
 def _odd_word_prop(notes):
     """a GNU property list holding a bit-mask type with a size other than 4 (the repaired Elf_Prop defect)"""
-    return any(desc[0] == 'props' and any(p[0] == 'raw' and p[1] in WORD_PROPS for p, _ in desc[1]) for _, _, _, desc, _ in notes)
+    return any(desc[0] == 'props' and any(p[0] == 'raw' and p[1] in WORD_PROPS for p, _ in desc[1]) for desc in (n[3] for n in notes))
 
 
 def _final_header_only(notes):
@@ -978,8 +994,11 @@ def _evaluate(ctx, cases):
             ctx.bump('note_sh_link', _bucket(w['shf'][2]))
             ctx.bump('note_sh_info', _bucket(w['shf'][3]))
             ctx.bump('note_p_memsz', 'filesz' if w['phf'][3] == 'filesz' else _bucket(w['phf'][3]))
-            for name, npad, ty, desc, dpad in notes:
-                ctx.bump('namesz_mod4', (0 if name == 'none' else len(name) + 1) % 4)
+            for _n in notes:
+                name, npad, ty, desc, dpad = _n[:5]
+                ctx.bump('namesz_mod4', (0 if name == 'none' else len(name) + 1 + (len(_n[5]) if len(_n) > 5 else 0)) % 4)
+                ctx.bump('name_field', 'absent' if name == 'none' else 'name NUL' if len(_n) < 6 else
+                         'name NUL NUL..' if not _n[5].strip(b'\0') else 'name NUL bytes')
                 ctx.bump('desc_kind', desc[0])
                 if desc[0] == 'raw':
                     ctx.bump('descsz_mod4', len(desc[1]) % 4)
